@@ -242,6 +242,14 @@ def run_job(job, unit, workdir, log=print):
         if rc != 0:
             raise Undecided('goto-cc failed (weave/compile error): ' + (err + out)[-1500:])
         cur = gb0
+        if job.get('pre_unwind'):
+            gbu = os.path.join(jd, 'a_unwound0.gb')
+            cmd = ['goto-instrument', '--unwind', str(job['pre_unwind']), '--unwinding-assertions', cur, gbu]
+            rc, out, err, dt = sh(cmd, 600)
+            res.cmds.append(' '.join(cmd))
+            if rc != 0:
+                raise Undecided('goto-instrument pre-unwind failed: ' + (err + out)[-1500:])
+            cur = gbu
         if job.get('pre_unwindset'):
             # loops closed by their constant bound are unwound BEFORE contract instrumentation (dfcc sizes its write sets statically)
             gbu = os.path.join(jd, 'a_unwound.gb')
